@@ -221,8 +221,13 @@ def run {ι Cfg σ Act : Type} [DecidableEq ι] (g : Fixed) (sim : Sim Cfg σ Ac
 
 /-! ## models of the set consumers found by the inventory (executable; the driver exposes them) -/
 
-/-- `for x in sorted(s)` : the loop sees the elements in ascending order (nmap after the F-8 repair). -/
-def sortedIter (l : List Nat) : List Nat := l.mergeSort (fun a b => decide (a ≤ b))
+def insertSorted (a : Nat) : List Nat → List Nat
+  | [] => [a]
+  | b :: t => if a ≤ b then a :: b :: t else b :: insertSorted a t
+
+/-- `for x in sorted(s)` : the loop sees the elements in ascending order (nmap after the F-8 repair).
+(Insertion sort: structurally recursive, so the kernel can evaluate it; any sorting function gives the same list.) -/
+def sortedIter (l : List Nat) : List Nat := l.foldr insertSorted []
 
 /-- `for x in s` : the loop sees the elements in hash order (nmap BEFORE the repair) — not invariant. -/
 def rawIter (l : List Nat) : List Nat := l
